@@ -92,7 +92,9 @@ def _r3(prop, result, failure, finding):
         # the same program, i.e. the cycle exists only because a lookup conflated value-equal objects (typically a
         # stale empty sub-circuit that compares equal to the circuit being copied: the copy then refers to its parent)
         return model_undefined(result, failure) and not model_undefined(result, failure, ident_keys=True)
-    if failure.get('probe') not in ('C05', 'C07', 'C03'):
+    if failure.get('probe') not in ('C05', 'C07', 'C03', 'C06'):
+        # ('C06': the n*T clause — a repeated block with two value-equal relation-less sub-circuit heads, the follower of one is
+        #  re-pointed to the copy of the other in every later copy; found on the unchanged tree by the forced stream of round 4)
         return False
     if model_collisions(result) > 0:
         return True
